@@ -16,7 +16,7 @@ comparisons, and/or/not, + - *, min, len, in / not in, is None / is not None, co
 displays, f-strings, slices s[n:], and a whitelist of str/list methods mapped to Prelude functions."""
 import ast, sys, os, textwrap
 
-SRC = os.environ.get("NV_SRC", "/repo/src/nauyaca")   # NV_SRC: a scratch copy, for testing the translators on modified sources
+SRC = os.environ.get("NV_SRC", os.path.join(os.environ.get("NV_REPO", "/repo"), "src", "nauyaca"))   # NV_SRC: a scratch copy, for testing the translators on modified sources
 
 class Untranslatable(Exception):
     pass
